@@ -164,7 +164,7 @@ fn strat(n_sched: std::ops::Range<usize>) -> impl Strategy<Value = DetCase> {
 pub fn run(ctx: &Ctx, stats: &mut Stats) {
     let c2 = ctx.clone();
     let creates = std::cell::Cell::new(0u64);
-    let n = ctx.tier.pick(48, 800);
+    let n = ctx.tier.pick(32, 800);
     {
         let check = |c: &DetCase| check_in(&c2, c, &creates);
         if ctx.tier == Tier::Quick {
